@@ -232,6 +232,15 @@ func vfConcExec[K Key](c *vfConcCase, mk func(i int) K, idxOf func(K) int) *vfCo
 					cache.Clear()
 				case "umc":
 					cache.UpdateMaxCost(c.MaxCost + op.Cost)
+				case "umcstorm":
+					// C08 only: the capacity is toggled between a tiny and the configured value while others write
+					for j := 0; j < op.N; j++ {
+						cache.UpdateMaxCost(1 + int64(j%2)*(c.MaxCost+op.Cost))
+						if j%8 == 7 {
+							runtime.Gosched()
+						}
+					}
+					cache.UpdateMaxCost(c.MaxCost)
 				case "maxcost":
 					r.Val = uint64(cache.MaxCost())
 				case "remaining":
@@ -595,7 +604,7 @@ func vfConcOracles(c *vfConcCase, h *vfConcHist) (vs []*vfViol, st vfConcStats) 
 			writers[r.Key][r.G] = true
 		}
 	}
-	if st.clears == 0 && (c.HashMode == "default" || c.HashMode == "distinct") {
+	if st.clears == 0 && (c.HashMode == "default" || c.HashMode == "distinct" || c.Profile == "C05") {
 		byG := map[int][]*vfCRec{}
 		for i := range h.Recs {
 			byG[h.Recs[i].G] = append(byG[h.Recs[i].G], &h.Recs[i])
@@ -656,6 +665,25 @@ func vfConcOracles(c *vfConcCase, h *vfConcHist) (vs []*vfViol, st vfConcStats) 
 	return
 }
 
+// vfTextKeys: the key universe of the string / []byte key types. The first entries are deliberately awkward:
+// empty, NUL bytes, the same small number encoded at several widths, shared prefixes and suffixes.
+var vfTextKeys = func() []string {
+	ks := []string{"", "\x00", "\x00\x00", "\x05", "\x05\x00", "\x05\x00\x00\x00", "\x05\x00\x00\x00\x00\x00\x00\x00",
+		"a", "aa", "aaa", "aaaaaaaa", "aaaaaaaaa", "ab", "ba", "\xff", "\xff\xff\xff\xff\xff\xff\xff\xff"}
+	for i := len(ks); i < 64; i++ {
+		ks = append(ks, fmt.Sprintf("key-%d", i))
+	}
+	return ks
+}()
+
+var vfTextKeyIdx = func() map[string]int {
+	m := map[string]int{}
+	for i, k := range vfTextKeys {
+		m[k] = i
+	}
+	return m
+}()
+
 // named key types exercise the reflection path of the default KeyToHash
 type vfNamedStr string
 type vfNamedBytes []byte
@@ -665,17 +693,17 @@ type vfNamedInt int
 func vfConcRunTyped(c *vfConcCase) *vfConcHist {
 	switch c.KeyType {
 	case "named-string":
-		return vfConcExec(c, func(i int) vfNamedStr { return vfNamedStr(fmt.Sprintf("key-%d", i)) }, func(k vfNamedStr) int { var i int; fmt.Sscanf(string(k), "key-%d", &i); return i })
+		return vfConcExec(c, func(i int) vfNamedStr { return vfNamedStr(vfTextKeys[i]) }, func(k vfNamedStr) int { return vfTextKeyIdx[string(k)] })
 	case "named-bytes":
-		return vfConcExec(c, func(i int) vfNamedBytes { return vfNamedBytes(fmt.Sprintf("key-%d", i)) }, func(k vfNamedBytes) int { var i int; fmt.Sscanf(string(k), "key-%d", &i); return i })
+		return vfConcExec(c, func(i int) vfNamedBytes { return vfNamedBytes(vfTextKeys[i]) }, func(k vfNamedBytes) int { return vfTextKeyIdx[string(k)] })
 	case "named-uint64":
 		return vfConcExec(c, func(i int) vfNamedU64 { return vfNamedU64(i + 1) }, func(k vfNamedU64) int { return int(k) - 1 })
 	case "named-int":
 		return vfConcExec(c, func(i int) vfNamedInt { return vfNamedInt(-(i + 1)) }, func(k vfNamedInt) int { return int(-k) - 1 })
 	case "string":
-		return vfConcExec(c, func(i int) string { return fmt.Sprintf("key-%d", i) }, func(k string) int { var i int; fmt.Sscanf(k, "key-%d", &i); return i })
+		return vfConcExec(c, func(i int) string { return vfTextKeys[i] }, func(k string) int { return vfTextKeyIdx[k] })
 	case "bytes":
-		return vfConcExec(c, func(i int) []byte { return []byte(fmt.Sprintf("key-%d", i)) }, func(k []byte) int { var i int; fmt.Sscanf(string(k), "key-%d", &i); return i })
+		return vfConcExec(c, func(i int) []byte { return []byte(vfTextKeys[i]) }, func(k []byte) int { return vfTextKeyIdx[string(k)] })
 	case "int":
 		return vfConcExec(c, func(i int) int { return i + 1 }, func(k int) int { return k - 1 })
 	case "int32":
@@ -707,7 +735,7 @@ var vfConcProfiles = map[string]*vfConcProfile{
 	"C04": {id: "C04", ticksync: 4, w: map[string]int{"get": 12, "set": 50, "del": 10, "wait": 3, "clear": 4, "yield": 8, "sleep": 3}},
 	"C05": {id: "C05", w: map[string]int{"get": 25, "set": 30, "del": 15, "wait": 12, "yield": 8, "sleep": 2}},
 	"C07": {id: "C07", ticksync: 4, w: map[string]int{"get": 40, "set": 30, "del": 4, "getttl": 6, "iter": 4, "wait": 2, "yield": 4, "sleep": 10}},
-	"C08": {id: "C08", ticksync: 4, allOps: true, w: map[string]int{"get": 22, "set": 22, "del": 8, "getttl": 6, "iter": 4, "wait": 5, "clear": 3, "umc": 3, "maxcost": 3, "remaining": 4, "metrics": 4, "yield": 8, "sleep": 3}},
+	"C08": {id: "C08", ticksync: 4, allOps: true, w: map[string]int{"get": 22, "set": 22, "del": 8, "getttl": 6, "iter": 4, "wait": 5, "clear": 3, "umc": 3, "umcstorm": 2, "maxcost": 3, "remaining": 4, "metrics": 4, "yield": 8, "sleep": 3}},
 	"C03": {id: "C03", w: map[string]int{"get": 20, "set": 50, "del": 10, "wait": 3, "umc": 2, "yield": 8, "sleep": 2}},
 	"C13": {id: "C13", ticksync: 4, w: map[string]int{"get": 15, "set": 45, "del": 12, "iter": 4, "wait": 3, "clear": 1, "yield": 8, "sleep": 4}},
 	"C17": {id: "C17", w: map[string]int{"get": 30, "set": 40, "del": 8, "wait": 3, "yield": 8, "sleep": 3}},
@@ -718,6 +746,11 @@ func vfGenConcCase(t *rapid.T, p *vfConcProfile, maxG int) *vfConcCase {
 	c.Keys = rapid.IntRange(4, 32).Draw(t, "keys")
 	if rapid.Bool().Draw(t, "fewkeys") {
 		c.Keys = rapid.IntRange(2, 6).Draw(t, "keys2")
+	}
+	if p.id == "C05" && rapid.IntRange(0, 2).Draw(t, "c05collide") == 0 {
+		// keys that collide on the primary hash; ownership (one writer per key) is what the oracle needs
+		c.KeyType = "string"
+		c.HashMode = rapid.SampledFrom([]string{"collide1", "collide2", "collide3", "distinct"}).Draw(t, "hashmode")
 	}
 	if p.id == "C01" {
 		c.KeyType = rapid.SampledFrom([]string{"uint64", "int", "int32", "uint32", "int64", "uint", "byte", "string", "string", "string", "bytes", "bytes", "bytes",
@@ -785,19 +818,30 @@ func vfGenConcCase(t *rapid.T, p *vfConcProfile, maxG int) *vfConcCase {
 				}
 			}
 			op := vfCOp{Kind: kind}
-			shared := c.Keys - owned
+			priv := owned
+			if p.id == "C05" {
+				priv = 2 * owned
+			}
+			shared := c.Keys - priv
 			if shared < 1 {
 				shared = 1
 			}
-			op.Key = owned + rapid.IntRange(0, shared-1).Draw(t, "key")
+			op.Key = priv + rapid.IntRange(0, shared-1).Draw(t, "key")
 			if op.Key >= c.Keys {
 				op.Key = c.Keys - 1
 			}
-			if hot && rapid.Bool().Draw(t, "usehot") && owned < c.Keys {
-				op.Key = owned
+			if hot && rapid.Bool().Draw(t, "usehot") && priv < c.Keys {
+				op.Key = priv
 			}
 			if gi < owned && rapid.Bool().Draw(t, "ownkey") {
 				op.Key = gi
+				if p.id == "C05" {
+					// two private keys per owning goroutine (they may collide with each other or with other owners' keys)
+					op.Key = 2*gi + rapid.IntRange(0, 1).Draw(t, "ownkey2")
+					if op.Key >= c.Keys {
+						op.Key = gi
+					}
+				}
 			}
 			switch kind {
 			case "set":
@@ -822,6 +866,12 @@ func vfGenConcCase(t *rapid.T, p *vfConcProfile, maxG int) *vfConcCase {
 				op.N = rapid.IntRange(0, 3).Draw(t, "stopafter")
 			case "umc":
 				op.Cost = int64(rapid.IntRange(0, 10).Draw(t, "raise"))
+				if p.id == "C08" && rapid.Bool().Draw(t, "lower") {
+					op.Cost = -int64(rapid.IntRange(0, int(c.MaxCost)-1).Draw(t, "lowerby")) // C08 does not restrict UpdateMaxCost
+				}
+			case "umcstorm":
+				op.N = rapid.IntRange(50, 2000).Draw(t, "storm")
+				op.Cost = int64(rapid.IntRange(0, 5).Draw(t, "raise"))
 			case "yield":
 				op.N = rapid.IntRange(1, 5).Draw(t, "n")
 			case "sleep":
